@@ -219,7 +219,9 @@ check("C06",
            "string, reserved-word identifiers, Type_id of composite types, typed-sequence products, homogeneous scopes/regions, singleton "
            "and heterogeneous overload sets, handler blocks, global namespace) (classic expressions also with their implementation() link set to a declaration) x {category; accept with a visitor overriding all 159 leaf "
            "hooks + 8 abstract ones; a visitor overriding only the 7 pure sinks; one also overriding visit(Classic); view<K> for all 159 "
-           "K}. distinct_nontrivial = distinct implementation classes (typeid) examined.",
+           "K}; all of it again after 300 visits of every node by a visitor whose hooks all refuse; and the constants, internals and the "
+           "global namespaces (with their names) of three kinds of unit on a second Lexicon created after the first one was destroyed and "
+           "its storage put to other use. distinct_nontrivial = distinct implementation classes (typeid) examined.",
       text="Complete enumeration of a finite configuration space on the real nodes; expectations are computed from the "
            "documented interface class of each factory result by std::is_base_of, not from the implementation.",
       note="The interface class of each row is the return type the factory documents (a row does not compile if the factory "
